@@ -128,6 +128,8 @@ def ground_axioms(terms):
                 from .stdmodels import HASH_SIZES
                 import hashlib
                 new += [z3.Length(a) == HASH_SIZES[nm[2:]], z3.InRe(a, byte_re())]
+                # trusted cryptographic assumption: a digest is never all zero bytes (the null hash marks coinbase inputs)
+                new += [a != mk_str('\x00' * HASH_SIZES[nm[2:]])]
                 # agreement with the real function on the empty input (paths where symbolic pieces are empty)
                 empty = ('H-empty', nm)
                 if empty not in done:
